@@ -350,6 +350,8 @@ def negG (start stop : Option Int) (up : Gen σ α) : Gen (σ × NSt α) α := o
 inductive SPhase where
   /-- inside `list(itertools.islice(flow, bufsize))` -/
   | reading
+  /-- `orig_buf = list(...)` has been assigned -/
+  | blockRead
   /-- yielding what the branches produce for the block just read -/
   | emitting
   /-- yielding the final pass (split.py:399-417) -/
@@ -387,13 +389,14 @@ def splitStep {σb : Type} (bufsize : Option Nat) (copyBuf : Bool) (up : Gen σ 
   | (s, l) =>
     match l.phase with
     | .reading =>
-      if blockFull bufsize l.buf then processBlock copyBuf s l
+      if blockFull bufsize l.buf then .cont (s, { l with phase := .blockRead })
       else
         match up.next fu s with
         | .item a s' => .cont (s', { l with buf := l.buf ++ [a] })
-        | .done s' => processBlock copyBuf s' l
+        | .done s' => .cont (s', { l with phase := .blockRead })
         | .fuel => .fuel
         | .error e => .error e
+    | .blockRead => processBlock copyBuf s l
     | .emitting =>
       match l.pending with
       | x :: r => .yield x (s, { l with pending := r })
@@ -589,29 +592,32 @@ def negSpec (start stop : Option Int) (sf : SF α) : SF α :=
 def negSliceSpec (start stop : Option Int) (step : Nat) (sf : SF α) : SF α :=
   if step = 1 then negSpec start stop sf else isliceSpec 0 none step (negSpec start stop sf)
 
-/-- the clock at which a block is complete: the stamp of its last value if it is full, else the
-clock at which the end of the input was seen -/
-def blockStamp (bufsize : Option Nat) (blk : List (α × Nat)) (cf : Nat) : Nat :=
+/-- how many values `list(islice(flow, bufsize))` asks for: `bufsize`, or — for `bufsize=None` — more
+than there are (it reads until it sees the end) -/
+def blockAsk (bufsize : Option Nat) (xs : List (α × Nat)) : Nat :=
   match bufsize with
-  | none => cf
-  | some b => if blk.length < b then cf else (blk.getLast?.map Prod.snd).getD cf
+  | some b => b
+  | none => xs.length + 1
 
-/-- `Split.run`: every result a branch produces for a block is yielded at the clock at which the
-block was complete — before the next block is pulled; the final pass at the end clock -/
+/-- `Split.run`: a block is complete at the clock at which `bufsize` values have been obtained or the
+end has been seen (`need`); every result a branch produces for the block is yielded at that clock —
+before the next block is pulled; the final pass is yielded at the end clock -/
 def splitSpecGo {σb : Type} (bufsize : Option Nat) (copyBuf : Bool) (cf : Nat) :
-    Nat → List (α × Nat) → List (Lena.C03.Branch σb α) → Bool → List (α × Nat)
-  | 0, _, _, _ => []
-  | fuel + 1, xs, act, fwe =>
-    let rb := Lena.C03.readBlock bufsize xs
-    if rb.1.isEmpty then (Lena.C03.outputs (Lena.C03.finalPass fwe act)).map (fun v => (v, cf))
+    Nat → Nat → List (α × Nat) → List (Lena.C03.Branch σb α) → Bool → List (α × Nat)
+  | 0, _, _, _, _ => []
+  | fuel + 1, c0, xs, act, fwe =>
+    let k := blockAsk bufsize xs
+    let blk := (xs.take k).map Prod.fst
+    let stamp := (SF.mk c0 xs cf).need k
+    if blk.isEmpty then (Lena.C03.outputs (Lena.C03.finalPass fwe act)).map (fun v => (v, stamp))
     else
-      let r := Lena.C03.blockLoop copyBuf (rb.1.map Prod.fst) (act.length + 1) 0 act []
-      (Lena.C03.outputs r.1).map (fun v => (v, blockStamp bufsize rb.1 cf))
-        ++ splitSpecGo bufsize copyBuf cf fuel rb.2 r.2 false
+      let r := Lena.C03.blockLoop copyBuf blk (act.length + 1) 0 act []
+      (Lena.C03.outputs r.1).map (fun v => (v, stamp))
+        ++ splitSpecGo bufsize copyBuf cf fuel stamp (xs.drop k) r.2 false
 
 def splitSpec {σb : Type} (brs : List (Lena.C03.Branch σb α)) (bufsize : Option Nat) (copyBuf : Bool)
     (sf : SF α) : SF α :=
-  { sf with vals := splitSpecGo bufsize copyBuf sf.cf (sf.vals.length + 1) sf.vals brs true }
+  { sf with vals := splitSpecGo bufsize copyBuf sf.cf (sf.vals.length + 1) sf.c0 sf.vals brs true }
 
 def Stage.spec : Stage α → SF α → SF α
   | .map f => mapSpec f
